@@ -565,6 +565,7 @@ def run(pid, tier, seed, res, only=None):
         cases.append(gen_hist_case(rng, max_n=6 if tier == "quick" else 8))
     if only is not None:
         cases = list(only)
+    n_hung = 0
     for ci, case in enumerate(cases):
         base = dict(engine="khist", case=case)
         try:
@@ -576,6 +577,14 @@ def run(pid, tier, seed, res, only=None):
             dist["harness_error"] += 1
             continue
         res.evaluations += 1
+        hung_ = [(oi_, o_) for oi_, o_ in enumerate(obs) if o_.get("status") == "hang"] + ([("final", final)] if final.get("status") == "hang" else [])
+        if hung_:
+            n_hung += len(hung_)
+            oi_, o_ = hung_[0]
+            res.hit("C09", "monitor", "operation %s (%s) of a history did not return within the watchdog's time" % (oi_, o_.get("op", {}).get("kind", "final call") if isinstance(o_, dict) else "?"), dict(base, kind="monitor", op_index=oi_))
+            if n_hung >= 3:
+                res.notes.append("K-hist stopped after %d cases: %d operations hung" % (ci + 1, n_hung))
+                break
         for o in obs:
             dist["op_" + o["op"]["kind"]] += 1
             dist["status_" + o["status"]] += 1
